@@ -286,6 +286,103 @@ func c13(r *engine.Report, p *engine.Program) {
 		ok2 := cancelCall != nil && baseRel != nil && engine.Reach(cr, nil, nil, func(in ssa.Instruction) bool { return in == cancelCall }, func(in ssa.Instruction) bool { return in == baseRel }) == nil
 		r.Check("R5-cancel", "commandUnit.Release: cancels before releasing", cr.Pos(), ok2, "the base release is reached only after Cancel()", "a command unit can be released without cancelling its process")
 	}
+	// R5c a remote unit cancelled before its remote work started: the background connect-and-start
+	// job is stopped (topJC.Cancel, Wait) before the unit is declared cancelled or released
+	if cor := p.Func("(*workceptor.remoteUnit).cancelOrRelease"); cor != nil {
+		var stops, waits []ssa.Instruction
+		for _, ci := range engine.CallsIn(cor) {
+			c := ci.Common()
+			if f, _ := engine.FieldOfLoad(c.Value); c.IsInvoke() && f != nil && f.Name() == "topJC" {
+				switch c.Method.Name() {
+				case "Cancel":
+					stops = append(stops, ci)
+				case "Wait":
+					waits = append(waits, ci)
+				}
+			}
+			if !c.IsInvoke() && len(c.Args) > 0 {
+				if f, _ := engine.FieldOfLoad(c.Args[0]); f != nil && f.Name() == "topJC" {
+					if o := engine.CalleeObj(c); o != nil {
+						switch o.Name() {
+						case "Cancel":
+							stops = append(stops, ci)
+						case "Wait":
+							waits = append(waits, ci)
+						}
+					}
+				}
+			}
+		}
+		// edges on which remoteStarted is false
+		_, notStarted := engine.CondEdges(cor, func(c ssa.Value) (bool, bool) {
+			u, ok := c.(*ssa.UnOp)
+			if !ok || u.Op != token.MUL {
+				return false, false
+			}
+			al, isAl := u.X.(*ssa.Alloc)
+			return isAl && al.Comment == "remoteStarted", true
+		})
+		ok, why := len(stops) > 0 && len(waits) > 0 && len(notStarted) > 0, "topJC.Cancel()/Wait() or the remoteStarted test not found in cancelOrRelease"
+		if ok {
+			isStop := func(in ssa.Instruction) bool { return isOneOf(in, stops) }
+			for _, e := range notStarted {
+				if hit := reachFromEdge(cor, e, nil, isStop, func(in ssa.Instruction) bool { _, isR := in.(*ssa.Return); return isR }); hit != nil {
+					ok = false
+					why = "with the remote work not yet started, cancelOrRelease can return at " + descInstr(p, hit) + " without stopping the unit's background job: after a plain cancel the job still submits the work once the node is reachable, and the remote state then overwrites the local Failed/cancelled record"
+				}
+			}
+		}
+		r.Check("R5-cancel", "remoteUnit.cancelOrRelease: a not-yet-started remote unit's background job is stopped on cancel and on release", cor.Pos(), ok,
+			"from the remoteStarted == false edge every return passes topJC.Cancel()", why)
+	} else {
+		r.Broken("remoteUnit.cancelOrRelease not found")
+	}
+	// R5d a command that ignores the interrupt is killed when the grace period ends
+	if ttk := p.Func("workceptor.termThenKill"); ttk != nil {
+		var sel *ssa.Select
+		timerIdx := -1
+		for _, b := range ttk.Blocks {
+			for _, in := range b.Instrs {
+				if s0, ok := in.(*ssa.Select); ok {
+					for i, st := range s0.States {
+						if c, isC := engine.Unwrap(st.Chan).(*ssa.Call); isC && engine.IsCallTo(c.Common(), "time.After") {
+							sel, timerIdx = s0, i
+						}
+					}
+				}
+			}
+		}
+		var kills []ssa.Instruction
+		for _, ci := range engine.CallsIn(ttk) {
+			if engine.IsCallTo(ci.Common(), "(*os.Process).Kill") {
+				kills = append(kills, ci)
+			}
+		}
+		ok, why := sel != nil && len(kills) > 0, "the grace-period select or the Kill call was not found in termThenKill"
+		if ok {
+			isIdx := func(v ssa.Value) bool {
+				e, isE := v.(*ssa.Extract)
+				return isE && e.Tuple == ssa.Value(sel) && e.Index == 0
+			}
+			timer, _ := engine.IntCmpEdges(ttk, isIdx, 0, token.EQL, int64(timerIdx))
+			// assume the process was started: remove the Process == nil outcomes
+			procNil, _ := engine.NilCmpEdges(ttk, func(v ssa.Value) bool { f, _ := engine.FieldOfLoad(v); return f != nil && f.Name() == "Process" })
+			cut := engine.EdgeSet{}.Add(procNil...)
+			if len(timer) == 0 {
+				ok, why = false, "the timer arm of the select was not identified"
+			}
+			for _, e := range timer {
+				if hit := reachFromEdge(ttk, e, cut, func(in ssa.Instruction) bool { return isOneOf(in, kills) }, func(in ssa.Instruction) bool { _, isR := in.(*ssa.Return); return isR }); hit != nil {
+					ok = false
+					why = "after the grace period a started process can be left alive: a return is reachable from the timer arm without Process.Kill() (the guard is not on cmd.Process): a payload that ignores SIGINT keeps running after the unit was cancelled or released"
+				}
+			}
+		}
+		r.Check("R5-cancel", "termThenKill: when the grace period ends a started process is killed", ttk.Pos(), ok,
+			"from the timer arm of the select, with cmd.Process != nil, every return passes Process.Kill()", why)
+	} else {
+		r.Broken("termThenKill not found")
+	}
 	// R6 the "finished" predicate every other rule and every poller relies on
 	if ic := p.Func("workceptor.IsComplete"); ic != nil {
 		want := map[string]bool{"WorkStatePending": false, "WorkStateRunning": false, "WorkStateSucceeded": true, "WorkStateFailed": true, "WorkStateCanceled": false}
